@@ -17,3 +17,14 @@ Proof. intros []; reflexivity. Qed.
 (* and the old ending was right exactly for the non-nil values *)
 Lemma nil_end_v0_only_nil : forall r, finish_v0 true r = finish true r <-> r <> ONil.
 Proof. intros [|v]; simpl; split; intro H; congruence. Qed.
+
+(* F-C04f: before d2e8680 an interface-typed node behind an input key took a nil in value mode and
+   failed in stream mode *)
+Lemma nil_under_key_v0 :
+  inkey_value true ONil = Ok ONil /\ sconcat oconcat [inkey_chunk_v0 true ONil] = Err e_node.
+Proof. split; reflexivity. Qed.
+
+(* as repaired: for every value under the key and either kind of node the two forms agree *)
+Lemma nil_under_key_fixed : forall iface v,
+  agree (inkey_value iface v) (sconcat oconcat [inkey_chunk iface v]).
+Proof. intros [] [|x]; simpl; auto. Qed.
